@@ -21,7 +21,9 @@ EXPLANATION = (
     "order that is sign-exact in floating point), s in the primal and z in the dual cone; (R6) the second-order cone "
     "routine applies the scalar-part cap before every return; (R7) every solve starts from scratch (C05.R6 re-run): reset, "
     "default_start, complete identity scaling / unit initialisation - so the k-th iterate does not depend on what the same "
-    "solver object did before.")
+    "solver object did before."
+    " (R10) dual membership predicate for (dz,z), primal for (ds,s) in every nonsymmetric cone (C15.R4 re-run); (R11) backtrack_search returns zero or the alpha it has just tested (C15.R11 re-run)."
+    " (R12) nonnegative-cone ratio test: component i limits the step iff its direction is < 0 exactly (no tolerance), by -z_i/dz_i (C15.R12 re-run).")
 ASSUMPTIONS = [
     'rustc MIR construction and trait resolution are correct',
     '0 <= linesearch_backtrack_step <= 1 and 0 < max_step_fraction <= 1 (settings are not validated by the crate)',
@@ -155,6 +157,9 @@ def run(ctx, rep, tier):
         from . import c14
         c14.membership_guards(rep, F, tag, 'C07.R8')
         steplen.margins_definitions(rep, F, E, tag, 'C07.R9')
+        steplen.backtrack_pairing(rep, F, tag, 'C07.R10')
+        steplen.backtrack_validated(rep, F, tag, 'C07.R11')
+        steplen.nn_ratio_test(rep, F, tag, 'C07.R12')
     # a run limited to max_iter = k is a prefix of a longer run also on a re-used solver object: every solve starts from scratch
     from . import c05, c04
     for cfg in CONFIGS:
